@@ -274,19 +274,25 @@ class Manifest:
         self.edges.append(e)
         return e
 
-    def binding(self, edge, name, _depth=0):
+    def binding(self, edge, name, _depth=0, escape=None):
+        # ninja evaluates `depfile`, `rspfile` and `dyndep` without shell
+        # escaping of $in/$out (EdgeEnv::kDoNotEscape); everything else with
+        if escape is None:
+            escape = name not in ('depfile', 'rspfile', 'dyndep')
+        esc = shell_escape if escape else (lambda p: p)
         if name in ('in', 'in_newline'):
             sep = ' ' if name == 'in' else '\n'
-            return sep.join(shell_escape(p) for p in edge.explicit)
+            return sep.join(esc(p) for p in edge.explicit)
         if name == 'out':
-            return ' '.join(shell_escape(p) for p in edge.outputs)
+            return ' '.join(esc(p) for p in edge.outputs)
         if name in edge.bindings:
             return edge.bindings[name]
         if name in edge.rule.bindings:
             if _depth > 20:
                 raise NinjaError('cycle in rule variables: ' + name)
             return expand(edge.rule.bindings[name],
-                          lambda n: self.binding(edge, n, _depth + 1))
+                          lambda n: self.binding(edge, n, _depth + 1,
+                                                 escape))
         return self.file_lookup(name)
 
 
